@@ -10,7 +10,7 @@ import (
 )
 
 func resultDigest(r *CallResult) []string {
-	out := []string{"value=" + r.Value, fmt.Sprintf("err_nil=%v escaped=%s exprcnt=%d", r.ErrNil, r.Escaped, r.ExprCnt)}
+	out := []string{"value=" + r.Value, fmt.Sprintf("err_nil=%v escaped=%s exprcnt=%d", r.ErrNil, r.Escaped, r.ExprCnt), "choice statistics: " + r.StatsDigest}
 	for _, e := range r.Errs {
 		out = append(out, "err: "+e.Msg)
 	}
